@@ -92,6 +92,9 @@ CHECKS = {
  'C32': dict(cat='proof', tech='deductive: postconditions over ghost started/finished sets on the real execute_concurrent / execute_concurrent_async and _ConcurrentExecutor / ListResults / GenResults / FutureResults methods, explored under every completion schedule (interference at the points where the condition lock is free); Condition, Future and Session.execute_async are assumed contracts',
              text='All schedules for up to 3 statements (thorough 4) x 5 behaviours x concurrency x fail-fast are enumerated: bounded in the number of statements, exhaustive in interleavings at lock-free points. Hangs (a wait nobody notifies) are detected. The generator variant relies on A-GEN (generator bodies run eagerly, exceptions surface at the consumer).',
              ref='DESIGN.md §4 C32'),
+ 'C25': dict(cat='proof', tech='deductive: typestate postconditions over a ghost notification log and the set of started/cancelled reconnection handlers on the real Cluster.on_up/_on_up_future_completed/on_down/_start_reconnector/_cleanup_failed_on_up_handling/on_remove/signal_connection_failure and pool._ReconnectionHandler.start/run, _HostReconnectionHandler, Host.get_and_set_reconnection_handler',
+             text='Each event handler is verified from an arbitrary host state satisfying the series invariant (at most one started, uncancelled handler = the registered one) and re-establishes it; event histories follow by composition. Sessions/policies/listeners are notification sinks; up to 2 sessions with every pool outcome and completion order.',
+             ref='DESIGN.md §4 C25'),
 }
 
 NA_REASON = {}
